@@ -73,7 +73,7 @@ def run(tier):
         chk.violation("spec:" + inv, {"model": "MC_Refinement", "invariant": inv}, {"tlc": res.trace_text()}, "")
     cases, meta = [], {}
     n = 0
-    nsyn = 192 if tier == "quick" else 1920
+    nsyn = 288 if tier == "quick" else 2880
     for k in range(nsyn):
         rows, cols = int(rng.randint(1, 5)), int(rng.randint(2, 8))
         nd = int(rng.randint(2, 7))
@@ -81,7 +81,7 @@ def run(tier):
         tm = ["min", "max"][k % 2]
         style = ["flat", "ties", "spread"][(k // 2) % 3]
         method = ["vfit", "quadratic"][(k // 6) % 2]
-        chain = ["wta", "wta+median", "wta+ref", "wta+median+ref", "anysample", "anysample+ref"][(k // 12) % 6]
+        chain = ["wta", "wta+median", "wta+ref", "wta+median+ref", "anysample", "anysample+ref", "offsample", "offsample+ref"][(k // 12) % 8]
         costs = gen_int_costs(rng, rows, cols, nd, style)
         dmin = int(rng.randint(-3, 2))
         vm = rng.choice([0, 0, 0, 0, 4, 1, 64, 2, 128, 256, 512], size=(rows, cols))
@@ -99,11 +99,18 @@ def run(tier):
                 validpx = (vm & 0b1111000011) == 0
                 rnd = (dmin + rng.randint(0, nd, size=(rows, cols)) / float(s)).astype(np.float32)
                 dm[validpx] = rnd[validpx]
+            if "offsample" in chain:
+                # any disparity of the interval at a valid pixel, between two samples too (what a bilateral filter or a
+                # previous refinement may leave), including the first and the last half-sample of the interval
+                dm = d["disparity_map"].data
+                validpx = (vm & 0b1111000011) == 0
+                rnd = (dmin + rng.randint(0, 8 * (nd - 1) + 1, size=(rows, cols)) / float(8 * s)).astype(np.float32)
+                dm[validpx] = rnd[validpx]
             if "median" in chain:
                 if rows < 3 or cols < 3:
                     continue      # (the median filter's own behaviour on tiny maps is C10's business)
                 pfilter.AbstractFilter(cfg={"filter_method": "median", "filter_size": 3}, image_shape=(rows, cols), step=1).filter_disparity(d)
-            stages = [method] if chain in ("wta", "wta+median", "anysample") else [["vfit", "quadratic"][k % 2], method]
+            stages = [method] if chain in ("wta", "wta+median", "anysample", "offsample") else [["vfit", "quadratic"][k % 2], method]
             for si, mth in enumerate(stages):
                 before_disp = d["disparity_map"].data.copy()
                 before_vm = d["validity_mask"].data.copy()
